@@ -115,6 +115,8 @@ type SimPeer struct {
 	gotGetData    []chainhash.Hash
 	txInvSeen     map[chainhash.Hash]int
 	txGot         map[chainhash.Hash]int
+	txGetDataSent map[chainhash.Hash]int
+	txRejectSent  map[chainhash.Hash]int
 	sessions      int
 	// hdrTipsSent: hash of the last header of every non-empty headers
 	// message this node sent (reset by the scenario when it wants to know
@@ -130,6 +132,9 @@ type SimPeer struct {
 	// requested header but fail the validity checks.
 	sentBadBlockWithHeader int
 	lastBadKind            string
+	// versionDelivered: this node's version message reached the client on
+	// some connection.
+	versionDelivered bool
 	// clientTipAtHandshake: the client's header tip height when this node's
 	// latest handshake completed.
 	clientTipAtHandshake int32
@@ -298,7 +303,7 @@ func (p *SimPeer) handle(msg wire.Message) {
 		v.ProtocolVersion = int32(wire.AddrV2Version)
 		v.Timestamp = time.Unix(time.Now().Add(p.timeSkew).Unix(), 0)
 		v.UserAgent = fmt.Sprintf("/verifsim:%d/", p.idx)
-		p.sendOpt(v, true)
+		p.sendWith(v, true, func() { p.versionDelivered = true })
 		p.sendOpt(wire.NewMsgSendAddrV2(), true)
 		p.sendOpt(wire.NewMsgVerAck(), true)
 	case *wire.MsgVerAck:
@@ -749,15 +754,32 @@ func (p *SimPeer) serveBlock(h chainhash.Hash) {
 	})
 }
 
+func (p *SimPeer) noteTx(m *map[chainhash.Hash]int, h chainhash.Hash) {
+	if *m == nil {
+		*m = map[chainhash.Hash]int{}
+	}
+	(*m)[h]++
+}
+
+func (p *SimPeer) sendReject(h chainhash.Hash) {
+	n := 1
+	if p.w.txRejectRepeat != nil {
+		n = p.w.txRejectRepeat(p)
+	}
+	for i := 0; i < n; i++ {
+		rej := wire.NewMsgReject(wire.CmdTx, p.beh.RejectCode, p.beh.RejectReason)
+		rej.Hash = h
+		p.noteTx(&p.txRejectSent, h)
+		p.send(rej)
+	}
+}
+
 func (p *SimPeer) onInv(m *wire.MsgInv) {
 	for _, iv := range m.InvList {
 		if iv.Type != wire.InvTypeTx && iv.Type != wire.InvTypeWitnessTx {
 			continue
 		}
-		if p.txInvSeen == nil {
-			p.txInvSeen = map[chainhash.Hash]int{}
-		}
-		p.txInvSeen[iv.Hash]++
+		p.noteTx(&p.txInvSeen, iv.Hash)
 		mode := p.beh.TxMode
 		if p.w.txMode != nil {
 			mode = p.w.txMode(p, iv.Hash)
@@ -766,30 +788,24 @@ func (p *SimPeer) onInv(m *wire.MsgInv) {
 		case 0, 1:
 			gd := wire.NewMsgGetData()
 			gd.AddInvVect(wire.NewInvVect(iv.Type, &iv.Hash))
+			p.noteTx(&p.txGetDataSent, iv.Hash)
 			p.send(gd)
 		case 2:
 		case 3:
-			rej := wire.NewMsgReject(wire.CmdTx, p.beh.RejectCode, p.beh.RejectReason)
-			rej.Hash = iv.Hash
-			p.send(rej)
+			p.sendReject(iv.Hash)
 		}
 	}
 }
 
 func (p *SimPeer) onTx(m *wire.MsgTx) {
 	h := m.TxHash()
-	if p.txGot == nil {
-		p.txGot = map[chainhash.Hash]int{}
-	}
-	p.txGot[h]++
+	p.noteTx(&p.txGot, h)
 	mode := p.beh.TxMode
 	if p.w.txMode != nil {
 		mode = p.w.txMode(p, h)
 	}
 	if mode == 1 {
-		rej := wire.NewMsgReject(wire.CmdTx, p.beh.RejectCode, p.beh.RejectReason)
-		rej.Hash = h
-		p.send(rej)
+		p.sendReject(h)
 	}
 }
 
